@@ -7,7 +7,7 @@ from vx import Unit, Source, ExtractError, match_brace, code_mask
 
 ADAPTERS = [
     # (file, impl header regex, allowed guard chains, properties)
-    ("vhost/src/vhost_user/backend_req_handler.rs", r'^impl<T: VhostUserBackendReqHandlerMut> VhostUserBackendReqHandler for Mutex<T>$', [r'self\.lock\(\)\.unwrap\(\)'], ["C02"]),
+    ("vhost/src/vhost_user/backend_req_handler.rs", r'^impl<T: VhostUserBackendReqHandlerMut> VhostUserBackendReqHandler for Mutex<T>$', [r'self\.lock\(\)\.unwrap\(\)'], ["C02", "C03", "C04"]),
     ("vhost/src/vhost_user/frontend_req_handler.rs", r'^impl<S: VhostUserFrontendReqHandlerMut> VhostUserFrontendReqHandler for Mutex<S>$', [r'self\.lock\(\)\.unwrap\(\)'], ["C18"]),
     ("vhost/src/backend.rs", r'^impl<T: VhostBackendMut> VhostBackend for RwLock<T>$', [r'self\.write\(\)\.unwrap\(\)'], ["C02"]),
     ("vhost/src/backend.rs", r'^impl<T: VhostBackendMut> VhostBackend for RefCell<T>$', [r'self\.borrow_mut\(\)'], ["C02"]),
